@@ -55,7 +55,7 @@ Section Serial.
     sim_len_res : length (rs_results T rs) = k;
     sim_len_leaf : length (rs_leaf_sent T rs) = Nat.min k nl;
     sim_len_node : length (rs_node_sent T rs) = k - nl;
-    sim_blobs : take_blobs hc (rs_table T rs) (skipn k (worker_paths pack)) = (skipn k blobs, t');
+    sim_blobs : take_blobs T hc (rs_table T rs) (skipn k (worker_paths pack)) = (skipn k blobs, t');
     sim_hist : rd_hist (w_rd (rs_world T rs)) = rd_hist (w_rd w1)
   }.
 
@@ -74,11 +74,11 @@ Section Serial.
   Lemma sim_take k rs ss ps :
     sim k rs ss -> nth_error (worker_paths pack) k = Some ps ->
     exists t1, take_blob T hc (rs_table T rs) ps = (nth k blobs [], t1) /\
-               take_blobs hc t1 (skipn (S k) (worker_paths pack)) = (skipn (S k) blobs, t').
+               take_blobs T hc t1 (skipn (S k) (worker_paths pack)) = (skipn (S k) blobs, t').
   Proof.
     intros H Hps. pose proof (sim_blobs _ _ _ H) as Hb. rewrite (skipn_nth_error _ _ _ Hps) in Hb.
     cbn [take_blobs] in Hb. destruct (take_blob T hc (rs_table T rs) ps) as [b t1] eqn:Eb.
-    destruct (take_blobs hc t1 (skipn (S k) (worker_paths pack))) as [bs t2] eqn:Ebs.
+    destruct (take_blobs T hc t1 (skipn (S k) (worker_paths pack))) as [bs t2] eqn:Ebs.
     injection Hb as Hb Ht. symmetry in Hb. destruct (skipn_cons_nth _ _ _ _ [] Hb) as [E1 E2].
     exists t1. split; [f_equal; symmetry; exact E1 | rewrite Ebs; f_equal; [symmetry; exact E2 | exact Ht]].
   Qed.
@@ -244,7 +244,7 @@ Section Serial.
   Qed.
 
   Lemma sim_all (t : table T) :
-    take_blobs hc t (worker_paths pack) = (blobs, t') ->
+    take_blobs T hc t (worker_paths pack) = (blobs, t') ->
     exists rs2,
       run_nodes T teqb hc hl hr (st_leaves T teqb hc w1 t pack) (p_nodes pack) = Some rs2 /\
       sim n rs2 (fold_left (work_step pack blobs hists) (spawn_order pack) (st_init T w1 pack)).
@@ -279,12 +279,13 @@ Section S1.
   Proof.
     intros w rp goal w1 t pack Hi Hg. unfold build_ord. rewrite Hi, Hg.
     destruct (read_histories T teqb hr w1 (p_nodes pack)) as [hists|] eqn:Eh; [|reflexivity].
-    destruct (take_blobs hc t (worker_paths pack)) as [blobs t'] eqn:Etb.
+    destruct (take_blobs T hc t (worker_paths pack)) as [blobs t'] eqn:Etb.
     pose proof (get_nodes_plan_wf T _ _ _ _ Hg) as Hwf.
-    destruct (sim_all T teqb hc hl hr pack w1 hists blobs t' Hwf Eh t Etb) as (rs2 & Hrun & H).
-    rewrite (build_eq T teqb hc hl hr), Hi, Hg. cbv zeta. rewrite Hrun.
-    fold (st_init T w1 pack).
-    set (st1 := fold_left (work_step teqb hc hl pack blobs hists) (spawn_order pack) (st_init T w1 pack)) in *.
+    assert (table_rest T hc t pack = t') as Etr by (unfold table_rest; rewrite Etb; reflexivity).
+    destruct (sim_all T teqb hc hl hr pack (write_table T w1 t') hists blobs t' Hwf Eh t Etb) as (rs2 & Hrun & H).
+    rewrite (build_eq0 T teqb hc hl hr), Hi, Hg. cbv zeta. rewrite Etr, Hrun.
+    fold (st_init T (write_table T w1 t') pack).
+    set (st1 := fold_left (work_step teqb hc hl pack blobs hists) (spawn_order pack) (st_init T (write_table T w1 t') pack)) in *.
     rewrite (sim_res _ _ _ _ _ _ _ _ _ H), Nat.sub_diag, flat_map_some.
     rewrite (sim_world _ _ _ _ _ _ _ _ _ H), (sim_cmds _ _ _ _ _ _ _ _ _ H).
     pose proof (sim_blobs _ _ _ _ _ _ _ _ _ H) as Hb.
